@@ -583,11 +583,44 @@ class RangeDomain:
         return TOP
 
 
+def compile_time_only(F):
+    """crate-private functions that are called from const / static initialisers only: they run inside rustc, where an overflow or a
+    failed assertion is a compile error for every profile alike — nothing of theirs can differ between a dev and a release build"""
+    if getattr(F, "_ct_only", None) is not None:
+        return F._ct_only
+    rt_callers, ct_callers = {}, {}
+    for rec in F.raw["bodies"]:          # (the raw list: several `const _` items share one path)
+        p = rec["path"]
+        tgt = rt_callers if rec["kind"] in ("Fn", "AssocFn", "Closure") else ct_callers
+        for blk in (rec.get("mir") or {}).get("blocks") or []:
+            t = blk["term"]
+            if t["k"] == "call" and t.get("fn"):
+                d = t["fn"].get("res_def") or t["fn"].get("def")
+                if d in F.bodies:
+                    tgt.setdefault(d, set()).add(p)
+    out = set()
+    changed = True
+    while changed:
+        changed = False
+        for p, b in F.bodies.items():
+            if p in out or b.rec["kind"] not in ("Fn", "AssocFn") or F.is_exported(p):
+                continue
+            rts = {c for c in rt_callers.get(p, ()) if c.split("::{closure")[0] not in out}
+            if not rts and (ct_callers.get(p) or any(c.split("::{closure")[0] in out for c in rt_callers.get(p, ()))):
+                out.add(p)
+                changed = True
+    F._ct_only = out
+    return out
+
+
 def profile_sites(Fd, Fr):
     """Assertion terminators / debug_assert panics present in the dev MIR and absent from the release MIR."""
     out = []
+    ct = compile_time_only(Fd)
     for p, b in Fd.bodies.items():
         if b.rec["kind"] not in ("Fn", "AssocFn", "Closure"):
+            continue
+        if p.split("::{closure")[0] in ct:
             continue
         rb = Fr.bodies.get(p)
         rel_kinds = {}
